@@ -16,7 +16,7 @@ def sched_so():
 
 def scenarios(tier):
     sc = C13.cli_scenarios()
-    pick = ["sync-adds", "sync-two-silent-errors", "scrub"] if tier == "quick" else [s[0] for s in sc]
+    pick = ["sync-adds", "sync-two-silent-errors", "sync-rehash-pending", "scrub"] if tier == "quick" else [s[0] for s in sc]
     out = []
     for s in sc:
         if s[0] in pick:
